@@ -1,5 +1,7 @@
 import CueVerif.Driver.Proto
 import CueVerif.Spec.Modzip
+import CueVerif.Model.ModzipDir
+import CueVerif.Model.ModzipEsc
 namespace CueVerif.Driver.C15
 open CueVerif CueVerif.Driver CueVerif.Modzip
 
@@ -102,6 +104,40 @@ def showFS (fs : FS) (dir : Path) : String :=
   let j (xs : List String) : String := if xs.isEmpty then "." else ",".intercalate (sortStrs xs)
   s!"files={j files} dirs={j dirs} outside={outside.length}"
 
+/-- a directory tree in pre-order: `f,<hexname>,<size>` `i,<hexname>` `d,<hexname>` … `)` -/
+def parseDList : Nat → List String → Option (DList × List String)
+  | 0, _ => none
+  | _ + 1, [] => some (.nil, [])
+  | fuel + 1, w :: rest =>
+    if w == ")" then some (.nil, rest) else
+    match w.splitOn "," with
+    | ["f", n, sz] => do
+      let n ← unhex n; let sz ← parseInt? sz
+      let (more, rest') ← parseDList fuel rest
+      pure (.cons n (.file sz) more, rest')
+    | ["i", n] => do
+      let n ← unhex n
+      let (more, rest') ← parseDList fuel rest
+      pure (.cons n .irregular more, rest')
+    | ["d", n] => do
+      let n ← unhex n
+      let (ch, rest1) ← parseDList fuel rest
+      let (more, rest2) ← parseDList fuel rest1
+      pure (.cons n (.dir ch) more, rest2)
+    | _ => none
+
+def dirWhyStr : DirWhy → String
+  | .vendored => "vendored" | .vcs => "vcs" | .submoduleDir => "submoduledir" | .notRegular => "notregular"
+
+def showListing (l : Listing) : String :=
+  let f := if l.files.isEmpty then "." else ",".intercalate (sortStrs (l.files.map fun e => hex e.path))
+  let o := if l.omitted.isEmpty then "." else ",".intercalate (l.omitted.map fun (p, w) => hex p ++ ":" ++ dirWhyStr w)
+  s!"F={f};W={o}"
+
+def optStr : Option Str → String
+  | some e => "ok " ++ hex e
+  | none => "err"
+
 def targetDir : Path := [[84]]     -- "/T"
 
 def handle (ws : List String) : String :=
@@ -172,6 +208,37 @@ def handle (ws : List String) : String :=
       | some e => "ok " ++ hex e
       | none => "err"
     | none => "bad-op"
+  | "createfull" :: u :: ents =>
+    match parseUni u, ents.mapM parseSrc with
+    | some U, some fs =>
+      match createFull U fs with
+      | none => "fail"
+      | some z => "ok " ++ (if z.isEmpty then "." else ",".intercalate (z.map fun e => s!"{hex e.name}:{e.declared}"))
+    | _, _ => "bad-op"
+  | "listdir" :: toks =>
+    match parseDList (2 * toks.length + 2) toks with
+    | some (root, []) => showListing (listFilesInDir root)
+    | _ => "bad-op"
+  | "checkdir" :: u :: toks =>
+    match parseUni u, parseDList (2 * toks.length + 2) toks with
+    | some U, some (root, []) => showChecked (checkDir U root).1
+    | _, _ => "bad-op"
+  | ["escapelit", s] =>
+    match unhex s with
+    | some s => optStr (escapeStringLit s)
+    | none => "bad-op"
+  | ["escapev", u, sv, s] =>
+    match parseUni u, unhex s with
+    | some U, some s => optStr (escapeVersion U (sv == "1") s)
+    | _, _ => "bad-op"
+  | ["unescape", s] =>
+    match unhex s with
+    | some s => optStr (unescapeString s)
+    | none => "bad-op"
+  | ["cmp", a, b] =>
+    match unhex a, unhex b with
+    | some a, some b => toString (createCmp a b)
+    | _, _ => "bad-op"
   | _ => "bad-op"
 
 end CueVerif.Driver.C15
